@@ -227,12 +227,25 @@ def correspondence(ctx):
 
 
 def reserved_cases():
+    """every reserved name x every way of binding a variable: local / global, single / tuple member (each position),
+    first / later clause, tal:define / tal:repeat"""
+    try:
+        from chameleon.compiler import COMPILER_INTERNALS_OR_DISALLOWED
+        internals = sorted(COMPILER_INTERNALS_OR_DISALLOWED)
+    except Exception:
+        internals = ['econtext', 'rcontext']
     out = []
-    for nm in ['econtext', 'rcontext', '__x', '__token']:
-        out.append(('<p tal:define="%s 1">x</p>' % nm, nm, True))
-        out.append(('<p tal:define="(a, %s) (1, 2)">x</p>' % nm, nm, True))
-    for nm in ['econtext', 'rcontext', '__token']:
-        out.append(('<p tal:repeat="%s xs">x</p>' % nm, nm, True))
+    for nm in internals + ['__x', '__token']:
+        for g in ('', 'global '):
+            out.append(('<p tal:define="%s%s 1">x</p>' % (g, nm), nm, True))
+            out.append(('<p tal:define="%s(a, %s) (1, 2)">x</p>' % (g, nm), nm, True))
+            out.append(('<p tal:define="%s(%s, a) (1, 2)">x</p>' % (g, nm), nm, True))
+            out.append(('<p tal:define="a 1; %s%s a">x</p>' % (g, nm), nm, True))
+            out.append(('<div><p tal:define="b 2"><i tal:define="%s%s b">x</i></p></div>' % (g, nm), nm, True))
+    for nm in internals + ['__token']:
+        for g in ('', 'global '):
+            out.append(('<p tal:repeat="%s%s xs">x</p>' % (g, nm), nm, True))
+            out.append(('<p tal:repeat="%s(a, %s) ((1, 2),)">x</p>' % (g, nm), nm, True))
     return out
 
 
@@ -254,11 +267,19 @@ def oracle(ctx):
             ctx.violation('a name reserved by the compiler is not rejected at compile time with its location', {'src': src},
                           expected='TemplateError with token %r' % nm, actual=r,
                           finding='D-05a2' if nm.startswith('__') and 'tal:repeat' in src else None)
+    # D-05f: a macro call (`econtext.update(rcontext)` afterwards) makes a global visible again inside an element that shadows it
+    r = pipeline.run_impl({'src': D05F, 'vars': []})
+    if r.get('out') != D05F_EXPECT:
+        ctx.violation('a local definition that shadows a global must stay visible until its element ends (also after a macro was used inside)',
+                      {'src': D05F}, expected=D05F_EXPECT, actual=r, finding='D-05f' if r.get('out') == D05F_ACTUAL else None)
     # known findings (re-checked): D-05b, D-05c
     ctx.counters['nontrivial'] = len(nt)
     ctx.sample({'template': fam[0][0]['src'], 'vars': fam[0][0]['vars'], 'expected': fam[0][1]})
 
 
+D05F = '<a tal:define="global g \'G\'"></a><div tal:define="g \'L\'">${g}<b metal:define-macro="a">A</b>${g}</div>'
+D05F_EXPECT = '<a></a><div>L<b>A</b>L</div>'
+D05F_ACTUAL = '<a></a><div>L<b>A</b>G</div>'
 FINDINGS = {
     'D-05b': ('<p tal:define="x 1"><i tal:define="global x 2"/></p>[${x | \'U\'}]', {}, '<p><i></i></p>[2]'),
     'D-05c': ('<p tal:on-error="string:E" tal:define="x 1">${1/0}</p>[${x | \'U\'}]', {}, '<p>E</p>[U]'),
